@@ -497,6 +497,13 @@ def run_case(ctx, h, size, method, version, value, sample=False, pause_after=Non
     if follow is not None and version == b"HTTP/1.1":
         reqs.append((follow[0], follow[1], b"HTTP/1.1", follow[2]))
     out = h.exchange(reqs, pause_after=pause_after)
+    # failures are logged per connection: attribute them to the first request whose response went wrong (else the last)
+    blame = len(out["raws"]) - 1
+    for idx, raw in enumerate(out["raws"]):
+        pr = parse_response(raw)
+        if pr is None or pr[0] >= 500 or (idx < len(reqs) - 1 and complete_response(raw, reqs[idx][1]) is None):
+            blame = idx
+            break
     for idx, (sz, m, ver, val) in enumerate(reqs):
         if idx >= len(out["raws"]):
             break
@@ -516,7 +523,7 @@ def run_case(ctx, h, size, method, version, value, sample=False, pause_after=Non
         ctx.evaluated()
         if val is not None:
             ctx.distinct((sz, m, ver, val, idx, pause_after))
-        check(ctx, case, raw, out["failures"], closed, out["escaped"])
+        check(ctx, case, raw, out["failures"] if idx == blame else [], closed, out["escaped"] if idx == blame else None)
     if pause_after is not None:
         ctx.count("requests_with_pausing_transport")
     if sample:
